@@ -49,7 +49,7 @@ SIZE_LIMIT = 160
 
 
 class Val:
-    __slots__ = ('ast', 'tags', 'const', 'elems', 'closure', '_text', 'size')
+    __slots__ = ('ast', 'tags', 'const', 'elems', 'closure', '_text', 'size', 'fields', 'items', 'partial')
 
     def __init__(self, node, tags=frozenset(), const=NOCONST, elems=None, closure=None, parts=None, site=None):
         """parts: the component values the node was built from (their sizes bound the size of this value; a value
@@ -70,6 +70,9 @@ class Val:
         self.elems = elems
         self.closure = closure
         self._text = None
+        self.fields = None      # record (namedtuple) value: field names, positions as in elems
+        self.items = None       # dict display: [(key Val, value Val)]
+        self.partial = None     # functools.partial(f, *a, **k): ([a...], {k...}) bound ahead of the call's own arguments
 
     @property
     def text(self):
@@ -79,6 +82,7 @@ class Val:
 
     def with_tags(self, tags):
         v = Val(self.ast, self.tags | frozenset(tags), self.const, self.elems, self.closure, parts=[self])
+        v.fields, v.items, v.partial = self.fields, self.items, self.partial
         return v
 
     def __repr__(self):
@@ -157,6 +161,10 @@ class Tracer:
         self._stack = []
         self._root_cls = None
         self._ovr = {}
+        self.iter_hook = None          # callable(loop statement, path) at the end of every interpreted while-iteration that goes round again
+        self._consumers = []           # for statements whose iterable (a generator function) is being interpreted
+        self._pending_consumer = None
+        self._eager = set()            # call nodes whose value is consumed at once by an enclosing call
 
     # ------------------------------------------------------------------------------------------
     def trace(self, fi, args=None, upto=None):
@@ -211,6 +219,34 @@ class Tracer:
         if isinstance(s, ast.Expr):
             if isinstance(s.value, ast.Constant):
                 return [p]
+            if isinstance(s.value, ast.Yield) and self._consumers and self._consumers[-1]['gen'] is fi and '$consumer_env' in p.env:
+                # the generator is being consumed by a for statement of its caller: the loop body runs here, in the caller's scope
+                c = self._consumers[-1]
+                res = []
+                for q, v in (self._expr(s.value.value, p, fi, depth) if s.value.value is not None else [(p, const_val(None))]):
+                    if q.status is not None:
+                        res.append(q)
+                        continue
+                    gen_env = q.env
+                    q.env = dict(gen_env['$consumer_env'].elems_env)
+                    self._bind(c['stmt'].target, v, q, c['fi'], c['stmt'])
+                    self._consumers.pop()
+                    try:
+                        body = self._block(c['stmt'].body, [q], c['fi'], c['depth'])
+                    finally:
+                        self._consumers.append(c)
+                    for r in body:
+                        g2 = dict(gen_env)
+                        g2['$consumer_env'] = _EnvBox(r.env)
+                        r.env = g2
+                        if r.status == 'continue':
+                            r.status = None
+                        elif r.status == 'break':
+                            r.status = 'genbreak'
+                        elif r.status == 'return':
+                            r.status = 'genreturn'
+                        res.append(r)
+                return res
             if isinstance(s.value, (ast.Yield, ast.YieldFrom)):
                 outs = self._expr(s.value.value, p, fi, depth) if s.value.value is not None else [(p, const_val(None))]
                 for q, v in outs:
@@ -270,9 +306,58 @@ class Tracer:
             outs = []
             # a loop whose body only appends to local accumulators is a comprehension in disguise: it is summarised by
             # its one-iteration form alone (the empty case adds no events and would only lose the elements' provenance)
-            pure_acc = not s.orelse and all(isinstance(st, ast.Expr) and isinstance(st.value, ast.Call) and isinstance(st.value.func, ast.Attribute)
-                                            and st.value.func.attr in ('append', 'add') and isinstance(st.value.func.value, ast.Name) for st in s.body)
-            for q, it in self._expr(s.iter, p, fi, depth):
+            pure_acc = not s.orelse and all(isinstance(st, ast.Expr) and ((isinstance(st.value, ast.Call) and isinstance(st.value.func, ast.Attribute)
+                                                                          and st.value.func.attr in ('append', 'add') and isinstance(st.value.func.value, ast.Name))
+                                                                         or (isinstance(st.value, ast.Yield) and not self._consumers)) for st in s.body)
+            consumed = isinstance(s.iter, ast.Call) and not isinstance(s, ast.AsyncFor)
+            if consumed:
+                self._pending_consumer = {'stmt': s, 'fi': fi, 'depth': depth, 'used': False}
+            try:
+                if isinstance(s.iter, ast.Name) and s.iter.id not in p.env and isinstance(fi.module.frozen_display(s.iter.id), (ast.Tuple, ast.List)) \
+                        and any(isinstance(x, (ast.Name, ast.Lambda, ast.Tuple)) for x in fi.module.frozen_display(s.iter.id).elts):
+                    iters = [(p, self._module_table(fi.module, s.iter.id))]       # a module-level table of handlers: unrolled below
+                else:
+                    iters = self._expr(s.iter, p, fi, depth)
+                consumed = consumed and self._pending_consumer is not None and self._pending_consumer['used']
+            finally:
+                self._pending_consumer = None
+            if consumed:
+                # the iterable was a generator function of the package: its body has been interpreted with the loop body
+                # run at every yield (see the yield hook above)
+                for q, _ in iters:
+                    if q.status == 'genbreak':
+                        q.status = None
+                        outs.append(q)
+                    elif q.status == 'genreturn':
+                        q.status = 'return'
+                        outs.append(q)
+                    elif q.status is None:
+                        outs.extend(self._block(s.orelse, [q], fi, depth))
+                    else:
+                        outs.append(q)
+                return outs
+            for q, it in iters:
+                if it.elems is not None and 1 <= len(it.elems) <= 6 and isinstance(it.ast, (ast.Tuple, ast.List)) and 'maybe-empty' not in it.tags \
+                        and not any(isinstance(x.ast, ast.Starred) for x in it.elems):
+                    # a literal sequence (`for cache in (self._a, self._b): ...`, `for test, handler in ((A, f), (B, g)): ...`):
+                    # unrolled exactly, so that the loop is the same as its statements written out
+                    cur = [q]
+                    for el in it.elems:
+                        nxt = []
+                        for r in cur:
+                            self._bind(s.target, el, r, fi, s)
+                            for r2 in self._block(s.body, [r], fi, depth):
+                                if r2.status == 'break':
+                                    r2.status = None
+                                    outs.append(r2)
+                                elif r2.status in (None, 'continue'):
+                                    r2.status = None
+                                    nxt.append(r2)
+                                else:
+                                    outs.append(r2)
+                        cur = nxt
+                    outs.extend(self._block(s.orelse, cur, fi, depth))
+                    continue
                 if not pure_acc:
                     zero = q.fork()
                     outs.extend(self._block(s.orelse, [zero], fi, depth))
@@ -292,6 +377,8 @@ class Tracer:
                     r.loop -= 1
                     if pure_acc:
                         for nm, v_ in list(r.env.items()):
+                            if nm.startswith('$'):
+                                continue
                             if env_before.get(nm) is not v_ and isinstance(v_.ast, (ast.List, ast.Set)):
                                 r.env[nm] = Val(v_.ast, tags=frozenset(v_.tags) | {'maybe-empty'}, elems=v_.elems)
                     if r.status in ('break',):
@@ -323,6 +410,8 @@ class Tracer:
                 if not const_true:
                     for r in self._block(s.body, [one], fi, depth):
                         r.loop -= 1
+                        if self.iter_hook is not None and r.status in (None, 'continue'):
+                            self.iter_hook(s, r)
                         if r.status in ('break', 'continue') or r.status is None:
                             r.status = None
                             outs.append(r)
@@ -519,6 +608,15 @@ class Tracer:
         a = t.node.args
         for x in a.posonlyargs + a.args + a.kwonlyargs:
             p.env[x.arg] = Val(ast.Name(id=x.arg, ctx=ast.Load()), tags={'param:%s' % x.arg})
+        if val.partial is not None:
+            for n_, v_ in zip(callback_params(t), val.partial[0]):
+                p.env[n_] = v_
+            for k_, v_ in val.partial[1].items():
+                p.env[k_] = v_
+        if a.vararg:
+            p.env[a.vararg.arg] = Val(ast.Name(id=a.vararg.arg, ctx=ast.Load()), tags={'vararg'})
+        if a.kwarg:
+            p.env[a.kwarg.arg] = Val(ast.Name(id=a.kwarg.arg, ctx=ast.Load()), tags={'kwarg'})
         self._stack = [t.qualname]
         Path.budget = [self.max_paths * 4]
         body = t.node.body if isinstance(t.node.body, list) else [ast.Return(value=t.node.body)]
@@ -531,6 +629,8 @@ class Tracer:
                 q.status = 'return'
                 q.ret = const_val(None)
                 q.events.append(Event('return', value=q.ret, fn=t.qualname, facts=tuple(q.facts)))
+        if val.partial is not None and (val.partial[0] or val.partial[1]):
+            return _PartialView(t, len(val.partial[0]), val.partial[1]), paths
         return t, paths
 
     # ------------------------------------------------------------------------------------------
@@ -599,6 +699,12 @@ class Tracer:
                     # a private module-level function used as a value (callback): can be inlined when it is called
                     return [(p, Val(ast.Name(id=e.id, ctx=ast.Load()), closure=(fi.module.functions[e.id], None)))]
                 v = Val(ast.Name(id=e.id, ctx=ast.Load()), tags={'free:%s' % e.id})
+                g = fi.module.constant_binding(e.id)
+                if isinstance(g, ast.Constant) and (g.value is None or isinstance(g.value, (str, int, bool))):
+                    v.const = g.value       # a module constant: keeps its name as text, compares by value
+                elif isinstance(g, ast.Lambda):
+                    from .srcmodel import FuncInfo
+                    v.closure = (FuncInfo(g, fi.module), {})
             return [(p, v)]
         if isinstance(e, ast.IfExp):
             outs = []
@@ -620,6 +726,9 @@ class Tracer:
         if isinstance(e, ast.Attribute):
             outs = []
             for q, b in self._expr(e.value, p, fi, depth):
+                if not store and b.fields is not None and b.elems is not None and e.attr in b.fields:
+                    outs.append((q, b.elems[b.fields.index(e.attr)]))       # field of a record (namedtuple) built on this path
+                    continue
                 v = Val(ast.Attribute(value=b.ast, attr=e.attr, ctx=ast.Load()), tags=b.tags)
                 if not store and isinstance(b.ast, ast.Name) and b.ast.id == 'self' and fi.cls is not None:
                     # a bound method of the same class used as a value (callback): can be inlined / traced when it is called
@@ -630,8 +739,14 @@ class Tracer:
             return outs
         if isinstance(e, ast.Subscript):
             outs = []
-            for q, b in self._expr(e.value, p, fi, depth):
+            table = None
+            if not store and isinstance(e.value, ast.Name) and e.value.id not in p.env and isinstance(fi.module.frozen_display(e.value.id), ast.Dict):
+                table = self._module_table(fi.module, e.value.id)
+            for q, b in (self._expr(e.value, p, fi, depth) if table is None else [(p, table)]):
                 for r, i in self._expr(e.slice, q, fi, depth):
+                    if b.items is not None and not store:
+                        outs.extend(self._select(b, i, r, e, fi, depth))
+                        continue
                     if b.elems is not None and i.const is not NOCONST and isinstance(i.const, int) and -len(b.elems) <= i.const < len(b.elems):
                         outs.append((r, b.elems[i.const]))
                     else:
@@ -679,8 +794,14 @@ class Tracer:
                         for t, vv in self._expr(v, r, fi, depth):
                             nxt.append((t, ks + [kv], vs + [vv]))
                 cur = nxt
-            return [(q, Val(ast.Dict(keys=[k.ast if k is not None else None for k in ks], values=[v.ast for v in vs]),
-                            tags=frozenset().union(*([v.tags for v in vs] + [k.tags for k in ks if k is not None])) if vs else frozenset())) for q, ks, vs in cur]
+            outs = []
+            for q, ks, vs in cur:
+                dv = Val(ast.Dict(keys=[k.ast if k is not None else None for k in ks], values=[v.ast for v in vs]),
+                         tags=frozenset().union(*([v.tags for v in vs] + [k.tags for k in ks if k is not None])) if vs else frozenset())
+                if all(k is not None for k in ks):
+                    dv.items = list(zip(ks, vs))
+                outs.append((q, dv))
+            return outs
         if isinstance(e, (ast.BoolOp,)):
             cur = [(p, [])]
             for v in e.values:
@@ -756,6 +877,59 @@ class Tracer:
         if isinstance(e, (ast.Yield, ast.YieldFrom, ast.Await)):
             return self._expr(e.value, p, fi, depth) if e.value is not None else [(p, const_val(None))]
         raise AnalysisError('tracer: expression %s not supported (%s)' % (type(e).__name__, fi.qualname))
+
+    def _module_table(self, module, name):
+        """value of a module-level dict display that is bound once (a dispatch table): keys and values evaluated in module scope"""
+        key = (module.relpath, name)
+        cache = self.__dict__.setdefault('_tables', {})
+        if key not in cache:
+            from .srcmodel import FuncInfo
+            g = module.frozen_display(name)
+            mfi = FuncInfo(ast.Lambda(args=ast.arguments(posonlyargs=[], args=[], kwonlyargs=[], kw_defaults=[], defaults=[]), body=ast.Constant(value=None)), module)
+            scratch = Path()
+            saved = Path.budget
+            Path.budget = None
+            try:
+                res = self._expr(g, scratch, mfi, self.max_depth + 10)      # depth beyond the bound: nothing is inlined while the table is read
+            finally:
+                Path.budget = saved
+            if len(res) != 1 or scratch.events:
+                raise AnalysisError('tracer: module-level table %s of %s is not a plain display' % (name, module.relpath))
+            tv = res[0][1]
+
+            def bind(v):
+                if v.closure is None and isinstance(v.ast, ast.Name) and v.ast.id in module.functions:
+                    v.closure = (module.functions[v.ast.id], None)
+                for x in (v.elems or []):
+                    bind(x)
+            for k, v in (tv.items or []):
+                bind(v)
+            bind(tv)
+            if tv.items is not None:
+                tv.ast = ast.Name(id=name, ctx=ast.Load())
+                tv._text = None
+            cache[key] = tv
+        return cache[key]
+
+    def _select(self, table, idx, p, e, fi, depth):
+        """table[idx] for a dict display: the entry whose key is the index (same text or same constant); when the index is
+        symbolic, one fork per entry with the fact that the index equals that key"""
+        for k, v in table.items:
+            if k.text == idx.text or (k.const is not NOCONST and idx.const is not NOCONST and type(k.const) is type(idx.const) and k.const == idx.const):
+                return [(p, v)]
+        if idx.const is not NOCONST or any(k.const is NOCONST for k, _ in table.items):
+            res = Val(ast.Subscript(value=table.ast, slice=idx.ast, ctx=ast.Load()), tags=table.tags | idx.tags)
+            return [(p, res)]
+        outs = []
+        entries = list(table.items)
+        for n_, (k, v) in enumerate(entries):
+            q = p.fork() if n_ < len(entries) - 1 else p
+            if isinstance(k.const, bool):
+                self._add_fact(q, idx, k.const)
+            else:
+                self._add_fact(q, Val(ast.Compare(left=idx.ast, ops=[ast.Eq()], comparators=[k.ast]), tags=idx.tags), True)
+            outs.append((q, v))
+        return outs
 
     def _comp(self, e, p, fi, depth):
         """comprehension: bind targets to each(<iter>), evaluate filters and element once (calls are recorded as
@@ -886,6 +1060,18 @@ class Tracer:
                         return t, 1, None
         return None
 
+    @staticmethod
+    def _is_functools(f, fi, what):
+        if isinstance(f, ast.Attribute) and f.attr == what and isinstance(f.value, ast.Name):
+            return fi.module.imports.get(f.value.id) == 'functools'
+        if isinstance(f, ast.Name):
+            return fi.module.imports.get(f.id) == 'functools:' + what
+        return False
+
+    @classmethod
+    def _is_partial(cls, f, fi):
+        return cls._is_functools(f, fi, 'partial')
+
     def _overridden_below(self, cls, name, via, t):
         key = (cls, name, via)
         c = self._ovr.get(key)
@@ -902,13 +1088,19 @@ class Tracer:
     def _call(self, e, p, fi, depth):
         # evaluate callee and arguments
         outs = []
-        fouts = self._expr(e.func, p, fi, depth) if not isinstance(e.func, ast.Name) or e.func.id in p.env else [(p, None)]
+        fouts = self._expr(e.func, p, fi, depth) if not isinstance(e.func, ast.Name) or e.func.id in p.env or isinstance(fi.module.constant_binding(e.func.id), ast.Lambda) else [(p, None)]
         for q, fv in fouts:
             cur = [(q, [])]
             for a in e.args:
                 nxt = []
                 for r, acc in cur:
-                    for s_, v in self._expr(a, r, fi, depth):
+                    if isinstance(a, ast.Call):
+                        self._eager.add(id(a))
+                    try:
+                        res_ = self._expr(a, r, fi, depth)
+                    finally:
+                        self._eager.discard(id(a))
+                    for s_, v in res_:
                         nxt.append((s_, acc + [v]))
                 cur = nxt
             cur2 = []
@@ -935,14 +1127,76 @@ class Tracer:
         attr = f.attr if isinstance(f, ast.Attribute) else (f.id if isinstance(f, ast.Name) else None)
         if isinstance(f, ast.Name) and fv is not None and isinstance(callee_ast, ast.Attribute):
             attr = callee_ast.attr      # called through a local that holds `X.method`: the event is about the method
+        if fv is not None and fv.partial is not None and fv.closure is not None:
+            args = list(fv.partial[0]) + list(args)
+            kw = dict(fv.partial[1], **kw)
+        if self._is_functools(f, fi, 'reduce') and len(args) in (2, 3) and not kw and args[0].closure is not None:
+            # functools.reduce(f, xs, init): `acc = init; for x in xs: acc = f(acc, x)` - interpreted as that loop
+            k = len(self._stack) + p.loop * 100
+            fn_, it_, acc_, x_ = '$reduce_f%d' % k, '$reduce_it%d' % k, '$reduce_acc%d' % k, '$reduce_x%d' % k
+            p.env[fn_], p.env[it_] = args[0], args[1]
+            if len(args) == 3:
+                p.env[acc_] = args[2]
+            else:
+                p.env[acc_] = Val(ast.Call(func=ast.Name(id='first', ctx=ast.Load()), args=[args[1].ast], keywords=[]), tags=args[1].tags)
+            loop = ast.For(target=ast.Name(id=x_, ctx=ast.Store()), iter=ast.Name(id=it_, ctx=ast.Load()),
+                           body=[ast.Assign(targets=[ast.Name(id=acc_, ctx=ast.Store())],
+                                            value=ast.Call(func=ast.Name(id=fn_, ctx=ast.Load()), args=[ast.Name(id=acc_, ctx=ast.Load()), ast.Name(id=x_, ctx=ast.Load())], keywords=[]))],
+                           orelse=[])
+            ast.copy_location(loop, e)
+            ast.fix_missing_locations(loop)
+            outs_ = []
+            for r in self._stmt(loop, p, fi, depth):
+                rv = r.env.get(acc_, const_val(None))
+                for nm in (fn_, it_, acc_, x_):
+                    r.env.pop(nm, None)
+                outs_.append((r, rv))
+            return outs_
+        if self._is_partial(f, fi) and args and args[0].closure is not None and not any(k.startswith('**') for k in kw) \
+                and not any(isinstance(a.ast, ast.Starred) for a in args):
+            # functools.partial(f, *a, **k): f with leading arguments bound
+            base = args[0]
+            pv = Val(ast.Call(func=callee_ast, args=[a.ast for a in args], keywords=[ast.keyword(arg=k, value=v.ast) for k, v in kw.items()]),
+                     tags=frozenset().union(*([a.tags for a in args] + [v.tags for v in kw.values()])), closure=base.closure, parts=list(args) + list(kw.values()))
+            prev = base.partial or ([], {})
+            pv.partial = (list(prev[0]) + list(args[1:]), dict(prev[1], **kw))
+            return [(p, pv)]
+        if isinstance(f, ast.Name) and fv is None and f.id not in p.env:
+            fields = fi.module.namedtuple_fields(f.id)
+            if fields is not None and len(args) + len(kw) == len(fields) and all(k in fields for k in kw) and not any(isinstance(a.ast, ast.Starred) for a in args):
+                # construction of a record: its fields are the argument values themselves
+                elems = list(args) + [kw[n_] for n_ in fields[len(args):]]
+                rec = Val(ast.Call(func=ast.Name(id=f.id, ctx=ast.Load()), args=[x.ast for x in elems], keywords=[]),
+                          tags=frozenset().union(*[x.tags for x in elems]) if elems else frozenset(), elems=elems, parts=elems)
+                rec.fields = fields
+                return [(p, rec)]
         target = self._resolve(e, fi, fv, args, p)
         name = attr
         inline = False
         if target is not None and target[0] is not None:
             t = target[0]
             q_ = t.qualname
+            if id(e) in self._eager and _is_generator(t) and not t.is_contextmanager and _lazy_generator(t) and depth < self.max_depth \
+                    and q_ not in self._stack and name not in self.no_inline and q_ not in self.no_inline:
+                # g(...) handed straight to its consumer (`Bunch(g(...))`, `list(g(...))`): like a generator expression, its body is
+                # interpreted here - the calls it makes are recorded (in a loop), what it yields are yield events
+                outs_ = []
+                for r, _rv in self._inline(e, p, fi, depth, target[0], target[1], target[2], args, kw, fv):
+                    gv = Val(ast.Call(func=ast.Name(id='generated', ctx=ast.Load()), args=[ast.Call(func=callee_ast, args=[a.ast for a in args], keywords=[])], keywords=[]),
+                             tags=frozenset().union(*[a.tags for a in args]) | {'generator'} if args else frozenset({'generator'}))
+                    outs_.append((r, gv))
+                return outs_
+            pc = self._pending_consumer
+            consume = pc is not None and pc['stmt'].iter is e and _is_generator(t) and not t.is_contextmanager and _lazy_generator(t)
             inline = depth < self.max_depth and q_ not in self._stack and name not in self.no_inline and q_ not in self.no_inline \
-                and not t.is_contextmanager and not _is_generator(t) and not t.is_property
+                and not t.is_contextmanager and (not _is_generator(t) or consume) and not t.is_property
+            if consume and inline:
+                pc['used'] = True
+                self._consumers.append(dict(pc, gen=t))
+                try:
+                    return self._inline(e, p, fi, depth, target[0], target[1], target[2], args, kw, fv, consumer=True)
+                finally:
+                    self._consumers.pop()
             if name in self.inline_extra or q_ in self.inline_extra:
                 inline = depth < self.max_depth + 2 and q_ not in self._stack
         if inline:
@@ -971,7 +1225,7 @@ class Tracer:
                 p.env[f.value.id] = Val(ast.List(elts=[x.ast for x in elems], ctx=ast.Load()), tags=cur.tags | args[0].tags, elems=None if p.loop > 0 else elems)
         return [(p, res)]
 
-    def _inline(self, e, p, fi, depth, t, skip, closure_env, args, kw, fv):
+    def _inline(self, e, p, fi, depth, t, skip, closure_env, args, kw, fv, consumer=False):
         a = t.node.args
         pnames = [x.arg for x in a.posonlyargs + a.args]
         env = dict(closure_env) if closure_env is not None else {}
@@ -1020,6 +1274,8 @@ class Tracer:
                                    tags=frozenset().union(*[v.tags for v in rest.values()]) if rest else frozenset())
         q = p
         saved_env = q.env
+        if consumer:
+            env['$consumer_env'] = _EnvBox(saved_env)
         q.env = env
         self._stack.append(t.qualname)
         TOUCHED.add(t.qualname)
@@ -1034,7 +1290,7 @@ class Tracer:
             r.events.append(Event('exit', callee=t.qualname, node=e, fn=fi.qualname, depth=depth))
             rv = r.ret if r.status == 'return' and r.ret is not None else const_val(None)
             inner_env = r.env
-            r.env = dict(saved_env)
+            r.env = dict(saved_env) if not consumer or '$consumer_env' not in inner_env else dict(inner_env['$consumer_env'].elems_env)
             if closure_env is not None and getattr(t, 'outer', None) is fi:
                 for st_ in ast.walk(t.node):
                     if isinstance(st_, ast.Nonlocal):
@@ -1063,12 +1319,61 @@ class _Deferred(ast.stmt):
         self.test, self.body, self.orelse = test, body, orelse
 
 
+class _PartialView:
+    """a function with leading / keyword arguments bound by functools.partial, as its caller sees it"""
+
+    def __init__(self, t, skip, kwnames):
+        self.__dict__['_t'] = t
+        self.__dict__['partial_skip'] = skip
+        self.__dict__['partial_kw'] = frozenset(kwnames)
+
+    def __getattr__(self, name):
+        return getattr(self.__dict__['_t'], name)
+
+
 def callback_params(t):
-    """parameters of a function value as its caller sees them (without the bound receiver)"""
+    """parameters of a function value as its caller sees them (without the bound receiver and without what partial() bound)"""
     ps = list(t.params())
     if t.cls is not None and t.outer is None and not t.is_static and not isinstance(t.node, ast.Lambda) and ps:
         ps = ps[1:]
-    return ps
+    ps = ps[getattr(t, 'partial_skip', 0):]
+    return [x for x in ps if x not in getattr(t, 'partial_kw', ())]
+
+
+class _EnvBox:
+    """the scope of the for statement that consumes a generator, carried in the generator's scope (not a value)"""
+    __slots__ = ('elems_env',)
+
+    def __init__(self, env):
+        self.elems_env = env
+
+
+def _lazy_generator(t):
+    """generator bodies that can be interleaved with their consumer: plain `yield <expr>` statements outside try / with.
+    Only private helpers (code moved out of the function that is being interpreted): a public generator such as
+    ayns.named_children() is an interface, and stays a call"""
+    fn = t.node
+    if not t.name.startswith('_') or t.name.startswith('__'):
+        return False
+    for n in ast.walk(fn):
+        if isinstance(n, ast.YieldFrom):
+            return False
+        if isinstance(n, ast.Yield):
+            par = getattr(n, '_parent', None)
+            if not isinstance(par, ast.Expr):
+                return False
+            q = par
+            while q is not fn and q is not None:
+                if isinstance(q, (ast.Try, ast.With)):
+                    return False
+                q = getattr(q, '_parent', None)
+    return True
+
+
+def _holds_function(v):
+    if v.closure is not None:
+        return True
+    return v.elems is not None and any(_holds_function(x) for x in v.elems)
 
 
 def _has_call(st):
